@@ -550,7 +550,51 @@ pub fn fault_case() -> impl Strategy<Value = FaultCase> {
     (crate::gen::workspace(cfg), vec((0u8..11, vec(any::<u8>(), 0..24)), 1..=3)).prop_map(|(ws, faults)| FaultCase { ws, faults })
 }
 
+pub const FUZZ_BIN: &str = "/verif/target-fuzz/x86_64-unknown-linux-gnu/release/fz_session";
+
+/// one saved libFuzzer input against the fuzz binary built from the current tree
+fn check_fuzz_artifact(bytes: &[u8]) -> Outcome {
+    let tmp = format!("/dev/shm/verif-fzreplay-{}-{:016x}", std::process::id(), crate::runner::hash_json(&bytes));
+    if std::fs::write(&tmp, bytes).is_err() {
+        return Outcome::Ok;
+    }
+    let out = std::process::Command::new(FUZZ_BIN).arg(&tmp).output();
+    let _ = std::fs::remove_file(&tmp);
+    match out {
+        Err(e) => Outcome::Fail(format!("cannot run {}: {} (build it with ./vcheck C11 thorough)", FUZZ_BIN, e)),
+        Ok(o) if o.status.success() => Outcome::Ok,
+        Ok(o) => {
+            let err = String::from_utf8_lossy(&o.stderr);
+            let line = err.lines().find(|l| l.contains("panicked at")).unwrap_or("crash without panic message").to_string();
+            let next = err.lines().skip_while(|l| !l.contains("panicked at")).nth(1).unwrap_or("").to_string();
+            Outcome::Fail(format!("libFuzzer input crashes the library: {} {}", line, next))
+        }
+    }
+}
+
+/// merge the summary of the libFuzzer campaign that `vcheck C11 thorough` ran before us
+fn absorb_fuzz_summary(ctx: &Ctx) {
+    let Ok(path) = std::env::var("VERIF_FUZZ_SUMMARY") else { return };
+    let Ok(text) = std::fs::read_to_string(&path) else { return };
+    let Ok(v) = serde_json::from_str::<Value>(&text) else { return };
+    if let Some(crashes) = v.get("crashes").and_then(|c| c.as_array()) {
+        let mut seen = std::collections::BTreeSet::new();
+        for c in crashes {
+            let Some(p) = c.as_str() else { continue };
+            let Ok(bytes) = std::fs::read(p) else { continue };
+            // confirm against a fresh process and deduplicate by panic message
+            if let Outcome::Fail(m) = check_fuzz_artifact(&bytes) {
+                if seen.insert(m.clone()) {
+                    ctx.violation("fuzz", &serde_json::json!({"bytes": bytes}), &m);
+                }
+            }
+        }
+    }
+    ctx.set_extra("libfuzzer", v);
+}
+
 pub fn run(ctx: &Ctx) {
+    absorb_fuzz_summary(ctx);
     ctx.run_prop_shrink("scan-faults", ctx.tier.pick(150, 4_000), 8, 200, fault_case, |c, info| check_faults(c, info));
     ctx.run_prop("lib", ctx.tier.pick(12_000, 600_000), 16, case, |c, info| check_lib(c, info));
     ctx.run_prop_shrink("server", ctx.tier.pick(160, 4_000), 8, 200, case, |c, info| check_server(ctx, c, info));
@@ -570,6 +614,10 @@ pub fn judge(ctx: &Ctx, sub: &str, case: &Value) -> Option<Outcome> {
         "lib" => {
             let c: Case = from_case(case)?;
             Some(check_lib(&c, &mut info))
+        }
+        "fuzz" => {
+            let bytes: Vec<u8> = from_case(case.get("bytes")?)?;
+            Some(check_fuzz_artifact(&bytes))
         }
         _ => None,
     }
